@@ -41,6 +41,15 @@ func checkC18(c *Ctx) {
 	c.Rule("C18-R11", "the same fallback rules as a real screen: both encoders consult the fallback table only while nothing has been written for the cell (the main rune); a combining rune the character set lacks is elided even when a fallback is registered for it")
 	c.Expect("C18-R11", 2)
 	checkFallbackOnlyForMainRune(c, p, "C18-R11")
+	c.Rule("C18-R12", "the '?' of a cell nothing could be written for is decided on bytes that are really empty: a nil test of the cell's bytes is used only while they are reset to nil (a recycled Bytes[:0] is empty but not nil: a cell painted before would stay empty)")
+	c.Expect("C18-R12", 1)
+	checkEmptinessTestMatchesReset(c, p, "C18-R12")
+	c.Rule("C18-R13", "SetSize preserves the overlapping region: the cells are carried over into an array made by the call, never moved within the live one (front to back overwrites a row before it is moved as soon as the width grows)")
+	c.Expect("C18-R13", 1)
+	checkResizeIntoFreshStorage(c, p, "C18-R13")
+	c.Rule("C18-R14", "Sync shows everything again: the simulation's clear flag is raised only together with cells.Invalidate()")
+	c.Expect("C18-R14", 1)
+	checkClearImpliesInvalidate(c, p, "C18-R14", "simscreen")
 	c.Rule("C18-R8", "the simulation's ShowCursor remembers the requested position as given")
 	c.Expect("C18-R8", 1)
 	checkShowCursorStoresRequest(c, p, "C18-R8", "simscreen")
